@@ -37,11 +37,41 @@ def _case(specs, abbr, word):
     return ' '.join(toks)
 
 
+def _case_try(specs, abbr, word):
+    """the same, but every definition may be refused (the caller catches the exception): what was refused must not
+    leave anything behind"""
+    toks = ['H:f=%d' % (0 if abbr else 0x80)]
+    for n, sp in enumerate(specs):
+        toks.append('arg:%s:b%d:init=0/try' % (sp, n))
+    toks.append(A.argv_tok([word] if word else []))
+    return ' '.join(toks)
+
+
 def gen_cases(tier, rng):
     cases = []
     # corpus: the pinned-tree witness first
     cases.append(_case(['input-file', 'input-dir', 'input'], True, '--input'))
     cases.append(_case(['input', 'input-file', 'input-dir'], True, '--input'))
+    # definitions that are refused and survived: every ordered pair / triple of a family with conflicts, then
+    # every key of the family, exact and abbreviated
+    fam = ['v,verbose', 'v,version', 'verbose', 'x,verbose', 'version', 'i,input', 'j,input', 'input', 'i']
+    fwords = ['-v', '-x', '-i', '-j', '--verbose', '--version', '--ver', '--versi', '--verb', '--input', '--inp']
+    for n in (2, 3):
+        for sel in itertools.permutations(fam, n):
+            if n == 3 and tier == 'quick' and (hash(sel) % 4 != 0):
+                continue
+            for abbr in (True, False):
+                for w in fwords:
+                    cases.append(_case_try(list(sel), abbr, w))
+    # sub-group arguments live in a container of their own: their keys and abbreviations obey the same rules
+    for abbr in (True, False):
+        for main in (['i,input'], ['in'], ['i,input', 'inp'], []):
+            for sub in ('o,output', 'input-dir', 'output', 'x,index'):
+                for w in ['-o', '-i', '-x', '--output', '--out', '--outp', '--in', '--inp', '--input', '--input-', '--input-dir', '--ind', '--index']:
+                    toks = ['H:f=%d' % (0 if abbr else 0x80)]
+                    toks += ['arg:%s:b%d:init=0' % (sp, n) for n, sp in enumerate(main)]
+                    toks += ['S:%s:f=%d' % (sub, 0 if abbr else 0x80), 'arg:q:b3:init=0', A.argv_tok([w])]
+                    cases.append(' '.join(toks))
     nmax = 3 if tier == 'quick' else 4
     pool = SPECS[:16] if tier == 'quick' else SPECS
     words = ['-i', '-o', '-x'] + ['--' + w for w in WORDS_LONG]
@@ -95,23 +125,35 @@ def spec_check(case, ir, mr):
     toks = case.split(' ')
     abbr = toks[0] == 'H:f=0'
     defs = []
+    in_sub = False
     for t in toks:
-        if t.startswith('arg:'):
-            _, spec, slot, _ = t.split(':', 3)
-            defs.append((_parse(spec), slot))
+        if t.startswith('S:'):
+            # a sub-group argument of the main handler: its key belongs to the family; the arguments that follow
+            # belong to the sub-group handler
+            defs.append((_parse(t.split(':')[1]), 'SUB', False))
+            in_sub = True
+        elif t.startswith('arg:') and in_sub:
+            continue
+        elif t.startswith('arg:'):
+            _, spec, slot, opts = t.split(':', 3)
+            defs.append((_parse(spec), slot, 'try' in opts.split('/')))
     word = bytes.fromhex(toks[-1][5:]).decode() if toks[-1] != 'argv:-' else None
-    if any(k in ('odd',) for k, _ in defs):
+    if any(k in ('odd',) for k, _, _ in defs):
         return None          # outside the clean family: no judgement
     outcome = ir.split(' ')[0]
     # definition: refused iff a short or long key is already taken or the spec is malformed
     seen_s, seen_l = {}, {}
     refused = False
-    for k, slot in defs:
+    for k, slot, tolerated in defs:
         if k == 'bad':
+            if tolerated:
+                continue      # the refusal is survived: nothing of this definition may remain
             refused = True
             break
         s, l = k
         if (s and s in seen_s) or (l and l in seen_l):
+            if tolerated:
+                continue
             refused = True
             break
         if s:
@@ -139,6 +181,9 @@ def spec_check(case, ir, mr):
         expect = seen_s.get(word[1:])
     vals = dict(x.split('=') for x in ir.split(' ## ')[0].split(' ')[1:] if '=' in x)
     hit = [s for s, v in vals.items() if v == '1']
+    if expect == 'SUB':
+        # the key of a sub-group argument: accepted, no destination of the main handler is touched
+        return None if outcome == 'ok' and not hit else 'key %s designates the sub-group argument but the result is %s %s' % (word, outcome, hit)
     if expect is None:
         return None if outcome == 'err' else 'an unknown or ambiguous key was accepted (set %s)' % hit
     if outcome != 'ok':
@@ -148,7 +193,35 @@ def spec_check(case, ir, mr):
     return None
 
 
+def _subgroup_region(case):
+    """known finding: sub-group arguments are kept in a container of their own that is searched first; a long-key
+    word for which BOTH containers hold a key starting with it is resolved inside the sub-group container alone"""
+    toks = case.split(' ')
+    if not any(t.startswith('S:') for t in toks) or toks[-1] in ('argv:-',):
+        return False
+    try:
+        word = bytes.fromhex(toks[-1][5:]).decode()
+    except ValueError:
+        return False
+    if not word.startswith('--') or len(word) < 4:
+        return False
+    w = word[2:]
+    main, sub, in_sub = [], [], False
+    for t in toks:
+        if t.startswith('S:'):
+            k = _parse(t.split(':')[1]); in_sub = True
+            if isinstance(k, tuple) and k[1]:
+                sub.append(k[1])
+        elif t.startswith('arg:') and not in_sub:
+            k = _parse(t.split(':')[1])
+            if isinstance(k, tuple) and k[1]:
+                main.append(k[1])
+    return any(l.startswith(w) for l in main) and any(l.startswith(w) for l in sub)
+
+
 def classify(case, ir, mr):
+    if _subgroup_region(case):
+        return 'subgroup-abbrev-per-container'
     return 'findArg-order' if '2d2d' in case.split(' ')[-1] else 'lookup'
 
 
